@@ -156,15 +156,29 @@ def check(an, rep, tier):
                 v.k == 'arr' and v.dims is not None and len(v.dims) == 1
                 and v.dims[0] is not None]
         want = Poly.sym('m') + 1
+        from ..poly import definitely_differ as _dd
+        # knots and levels of one length that is definitely not m + 1 (the
+        # level 0 / knot -inf in front of the sample is missing: a point below
+        # the smallest sample value is looked up at position -1)
+        short = len(tabs) >= 2 and all(same(v.dims[0], tabs[0].dims[0])
+                                       for v in tabs) and \
+            _dd(tabs[0].dims[0], want)
         for ti, v in enumerate(tabs):
             uniq = any('uniq' in repr(a) for a in v.dims[0].atoms())
             ok = same(v.dims[0], want)
             rep.add('S-cdf', 'stat.cdf_getter', 'step table #%d of length '
                     'm + 1' % (ti + 1),
-                    'ok' if ok else ('violation' if uniq else 'unknown'),
-                    '' if ok else 'the table has %r entries: the number of '
-                    'steps is the number of DISTINCT sample values, so '
-                    'repeated values lose their multiplicity' % (v.dims[0],))
+                    'ok' if ok else ('violation' if uniq or short
+                                     else 'unknown'),
+                    '' if ok else ('the table has %r entries: the number of '
+                                   'steps is the number of DISTINCT sample '
+                                   'values, so repeated values lose their '
+                                   'multiplicity' % (v.dims[0],) if uniq else
+                                   'knots and levels both have %r entries, '
+                                   'not m + 1: the level 0 in front of the '
+                                   'smallest sample value is missing, a '
+                                   'point below it is looked up at position '
+                                   '-1 (the last level)' % (v.dims[0],)))
     for r in runs:
         if r.qualname == 'grid.grid_flat' and r.variant.get('n') == 'shape':
             rv = r.result
